@@ -151,8 +151,13 @@ func (o *opt) matchShortOpt(args []string, idx int, c *ParseContext) (bool, int,
 				continue
 			}
 
-			c.Opts[o.theOne] = append(c.Opts[o.theOne], "true")
 			newRem := rem[:remIdx] + rem[remIdx+1:]
+			if strings.HasPrefix(newRem, "-") {
+				// what would be left of the token reads "--...": the end-of-options marker or a
+				// long option, not the rest of a cluster of short options
+				return false, 0, args
+			}
+			c.Opts[o.theOne] = append(c.Opts[o.theOne], "true")
 			if newRem == "" {
 				return true, 1, removeStringAt(idx, args)
 			}
